@@ -1,14 +1,16 @@
 (* C11 - Selecting outputs / supplying intermediates keeps values, runs only needed work.
    Only statements here; every proof is `exact <lemma>` into Proofs/SubPipeFacts.v / Proofs/C11Capstone.v.
-   SubPipe.subpipeline = model of Pipeline.subpipeline (repaired code: fixes 808996e, 5096f67, e70da8d, 5c5f6de),
+   SubPipe.subpipeline = model of Pipeline.subpipeline (repaired code: fixes 808996e, 5096f67, 92d2388, f1919c8),
    which prepare_run applies for map(output_names=S) / map(auto_subpipeline=True); Pipe.eval / Pipe.needed_top =
    specification of C02; kw = the provided names I with their values.
    STATUS: for the repaired code (the kept set is the set of functions the outputs depend on, cut at the provided
    names) ALL statements are proved in full, for arbitrary cuts I: values, "exactly the needed functions",
-   rejection of uncomputable requests, acceptance of computable requests, "map calls exactly the needed functions
-   once".  The acceptance theorem has ONE guard, `dead_defaults_agree`; where it fails the code refuses a
+   rejection of uncomputable requests, acceptance of computable requests (by subpipeline and by map), "map calls
+   exactly the needed functions once".  The acceptance theorem has ONE guard, `dead_defaults_agree`; where it fails the code refuses a
    computable request (witness C11_dead_defaults_refused, known finding c11-inconsistent-dead-defaults).
-   The proofs rest on the completeness of Graph.ancestors (Proofs/GraphFacts.v: ancestors_complete). *)
+   The map-level acceptance has a second guard (no provided name is an output of a needed function; witness
+   C11_map_rejects_supplied_output_of_kept_function, the other known finding).
+   The proofs rest on the completeness of Graph.ancestors and of Kahn layering (Proofs/GraphFacts.v). *)
 From Verif Require Import Base.Prelude Base.StrOrd Base.Graph Model.Pipe Model.SubPipe Corr.Run_C11
                           Proofs.GraphFacts Proofs.PipeFacts Proofs.SubPipeFacts Proofs.C11Capstone.
 
@@ -21,6 +23,13 @@ Print Assumptions C11_descendants_complete.
 Theorem C11_ancestors_complete : forall g n x, wf_graph g -> gpath g x n -> x <> n -> In x (ancestors g n).
 Proof. exact ancestors_complete. Qed.
 Print Assumptions C11_ancestors_complete.
+
+(* Kahn layering succeeds on every graph that has a rank function (completeness of Graph.topo_generations) *)
+Theorem C11_topo_generations_complete : forall g (r : str -> nat),
+  (forall u v, In u (nodes g) -> In v (nodes g) -> In (u, v) (edges g) -> r u < r v) ->
+  exists ls, topo_generations g = Some ls.
+Proof. exact topo_generations_complete. Qed.
+Print Assumptions C11_topo_generations_complete.
 
 (* for every requested output the sub-pipeline computes the value of the full pipeline, with the provided
    values substituted (for every fuel, in particular for eval_top of either pipeline) *)
@@ -51,6 +60,14 @@ Theorem C11_subpipeline_needed_exact_set : forall p Ip Sq p',
   wf_pipeline p -> subpipeline p Ip (Some Sq) = Ok p' -> seteq_str (map fid p') (needed_set p Ip Sq) = true.
 Proof. exact subpipeline_needed_exact_set. Qed.
 Print Assumptions C11_subpipeline_needed_exact_set.
+
+(* the producers of the requested outputs are always among the kept functions (so the later check of
+   Pipeline.subpipeline that every requested output survived can only fire for a name that is no output of p) *)
+Theorem C11_requested_outputs_survive : forall p Ip Sq outs,
+  mapM (node_of p) Sq = Ok outs ->
+  forall o, In o Sq -> is_output p o = true -> is_output (keep p (required p Ip outs)) o = true.
+Proof. exact requested_outputs_survive. Qed.
+Print Assumptions C11_requested_outputs_survive.
 
 (* when S is not computable from I (an unknown output, or a needed parameter without value) the request is rejected *)
 Theorem C11_uncomputable_rejected : forall p Ip Sq kw,
@@ -109,6 +126,31 @@ Theorem C11_calls_exactly_needed : forall body pick p inputs Sq auto store lg,
   /\ forall f, In f p -> (In (fname f) (map fst lg) <-> exists o, In o Sq /\ In f (needed_top p inputs o)).
 Proof. exact map_calls_exactly_needed. Qed.
 Print Assumptions C11_calls_exactly_needed.
+
+(* ACCEPTANCE at the level of Pipeline.map: a computable request map(inputs, output_names=S [, auto_subpipeline])
+   is accepted and runs to completion (user functions that do not raise), outside the two known-finding regions:
+   `dead_defaults_agree` (c11-inconsistent-dead-defaults) and "no provided name is an output of a needed function"
+   (c11-map-rejects-supplied-output-of-kept-function); every provided name must be read by a needed function
+   (otherwise _validate_complete_inputs rejects it as an extra input, which the property allows) *)
+Theorem C11_map_computable_accepted : forall body pick p inputs Sq auto,
+  wf_pipeline p -> (forall f a, exists r, body f a = Ok r) ->
+  (forall o, In o Sq -> is_output p o = true /\ sufficient p inputs o) ->
+  dead_defaults_agree p inputs Sq ->
+  (forall k, In k (akeys inputs) ->
+     exists o f, In o Sq /\ In f (needed_top p inputs o) /\ In k (pnames f) /\ aget (bound f) k = None) ->
+  (forall k, In k (akeys inputs) -> forall o f, In o Sq -> In f (needed_top p inputs o) -> ~ In k (outs f)) ->
+  exists store lg, map_run body pick p inputs (Some Sq) auto = Ok (store, lg).
+Proof. exact map_computable_accepted. Qed.
+Print Assumptions C11_map_computable_accepted.
+
+(* the second guard cannot be dropped: f(x) -> (a, c); h(a, c) -> d; inputs {x, a}; S = {d} *)
+Theorem C11_map_rejects_supplied_output_of_kept_function :
+  wf_pipelineb w_k2 = true /\ computableb w_k2 [s "x"; s "a"] [s "d"] = true
+  /\ all_readb w_k2 [s "x"; s "a"] [s "d"] = true
+  /\ subpipeline w_k2 [s "x"; s "a"] (Some [s "d"]) = Ok w_k2
+  /\ map_run Sym.body Sym.pick w_k2 [(s "x", s "1"); (s "a", s "A")] (Some [s "d"]) false = Err ValueError.
+Proof. exact k2_witness. Qed.
+Print Assumptions C11_map_rejects_supplied_output_of_kept_function.
 
 (* CAPSTONE for the case kind CSub: outside the one remaining known-finding region the executable statement of
    the correspondence check holds of the model's observation, for every case *)
